@@ -136,6 +136,10 @@ t("big_tuple_mixed_300", "x = (" + ", ".join("b'k%d', 'k%d', %d, %d.5" % (i, i, 
 t("big_consts_mixed_300", "def g():\n    return [" + ", ".join(("b'c%d'" if i % 3 == 0 else "'c%d'" if i % 3 == 1 else "%d") % i for i in range(300)) + ", a]\nx = g()")
 t("set_unorderable_members", "x = a in {1j, -1j, 2j}\ny = a in {(None, 0), (0, None)}\nz = a in {None, 0, '0', 0.5, (0,), b'0'}", lo=(3, 2))
 t("const_int_min_folded", "x = -9223372036854775807 - 1\ny = -2147483647 - 1\nz = 9223372036854775807 + 0\nw = (-9223372036854775807 - 1, 2147483647 + 1, -2147483648, -9223372036854775808)")
+# hunting wave: constants beyond the int-to-str digit limit of newer hosts; small ints compared by identity
+t("const_huge_int_folded", "x = 1 << 20000\ny = (1 << 20000, 'a')", hi=(2, 7))
+t("const_huge_int_literal", "x = " + "9" * 5000 + "\ny = (" + "9" * 5000 + ", 'a')", hi=(3, 6))
+t("ident_small_int", "x = 10\ny = x is int('10')\nz = 256\nw = z is int('256')\nv = (-5, 0, 1)[0] is int('-5')")
 t("const_equal_distinct", "x = (0.0, -0.0, 1, 1.0, True, (1, 2), (1.0, 2.0), 0, False, 0j)")
 
 # ---- functions --------------------------------------------------------------
